@@ -246,4 +246,18 @@ def canonSection4 (edition : Int) (reserved : Bits) (dataBits : Bits) : Bits :=
   let pad := sectionPad edition n
   toBits 24 ((n + pad) / 8) ++ reserved ++ dataBits ++ zeros pad
 
+/-! ### vocabulary of the trace statements (`Props/C02Trace.lean`) -/
+
+/-- a field as it was written: what the template says about it, the supplied value, its code -/
+structure CodedField where
+  spec : FieldSpec
+  val : Val
+  bits : Bits
+
+/-- a column as it was written (compressed data): the field, the values of all subsets, the column code -/
+structure CodedColumn where
+  spec : FieldSpec
+  vals : List Val
+  bits : Bits
+
 end Bufr.Spec
